@@ -250,7 +250,10 @@ def stmt_guards(fn_node, env=None):
     out = []
 
     def _nnf(test, pol, acc):
-        return _raw_nnf(subst(test, env) if env else test, pol, acc)
+        if env:
+            for _ in range(3):          # loop variables bound to components of a generator element are substituted in a second pass
+                test = subst(test, env)
+        return _raw_nnf(test, pol, acc)
 
     def exits(body):
         return bool(body) and isinstance(body[-1], (ast.Return, ast.Continue, ast.Raise, ast.Break))
@@ -266,7 +269,28 @@ def stmt_guards(fn_node, env=None):
                 elif st.orelse and exits(st.orelse) and not exits(st.body):
                     guards = guards + _nnf(st.test, True, [])
             elif isinstance(st, (ast.For, ast.AsyncFor)):
-                walk(st.body, guards + [("for", ast.unparse(st.target), ast.unparse(subst(st.iter, env) if env else st.iter))])
+                it = subst(st.iter, env) if env else st.iter
+                # for (a, b) in ((x, y) for m in M for f in F(m) if c):  ==  for m in M: for f in F(m): if c: a, b = x, y; ...
+                tnames = [t.id for t in st.target.elts] if isinstance(st.target, ast.Tuple) and all(isinstance(t, ast.Name) for t in st.target.elts) \
+                    else ([st.target.id] if isinstance(st.target, ast.Name) else None)
+                if isinstance(it, (ast.GeneratorExp, ast.ListComp)) and tnames is not None and \
+                        ((isinstance(it.elt, ast.Tuple) and len(it.elt.elts) == len(tnames)) or len(tnames) == 1):
+                    g2 = list(guards)
+                    for gen in it.generators:
+                        g2.append(("for", ast.unparse(gen.target), ast.unparse(gen.iter)))
+                        for c in gen.ifs:
+                            g2 += _nnf(c, True, [])
+                    comps = list(it.elt.elts) if isinstance(it.elt, ast.Tuple) and len(tnames) > 1 else [it.elt]
+                    saved = dict(env) if env is not None else None
+                    if env is not None:
+                        for n_, c_ in zip(tnames, comps):
+                            env[n_] = c_
+                    walk(st.body, g2)
+                    if env is not None:
+                        env.clear()
+                        env.update(saved)
+                else:
+                    walk(st.body, guards + [("for", ast.unparse(st.target), ast.unparse(it))])
                 walk(st.orelse, guards)
             elif isinstance(st, (ast.With, ast.AsyncWith)):
                 walk(st.body, guards)
